@@ -25,7 +25,7 @@ ASSUMPTIONS = [
 ]
 
 NCON = 8
-NLEAF = 10
+NLEAF = 11
 BS = chr(92)
 
 
@@ -62,6 +62,11 @@ def leaf_query(Qi, leaf, s):
         return q.select(t.k, Function("DATE_ADD", t.v, Interval(days=3)))
     if leaf == 9:  # JSON document (dict) in a criterion: json.dumps escapes need the dialect's string rules on top
         return q.select(t.k, t.v).where(t.b == {"k": 'a"b' + BS})
+    if leaf == 10:  # intervals that carry a dialect= hint of their own (one per template family): the rendering class still decides
+        from pypika_tortoise.enums import Dialects
+        now = Field("now")
+        return (q.select(t.k, t.v).where(t.b > now - Interval(days=3, dialect=Dialects.MYSQL))
+                .where(t.c > now - Interval(days=3, dialect=Dialects.POSTGRESQL)))
     raise AssertionError(leaf)
 
 
@@ -111,7 +116,7 @@ def leaf_reference(d, leaf, s):
         return q + "b" + q + "='" + enc + "'"
     if leaf == 2:
         return q + "b" + q + ("=ARRAY[1,2]" if d == 2 else "=[1,2]")
-    if leaf == 3 or leaf == 8:
+    if leaf == 3 or leaf == 8 or leaf == 10:
         return "INTERVAL '3' DAY" if d in (1, 5) else "INTERVAL '3 DAY'"
     if leaf == 6:
         return q + ('k"`x'.replace(q, q + q)) + q
@@ -145,7 +150,7 @@ def check_nested(name, d, con, depth, leaf, par, s, args):
         return verdict(False, name, stage=1, **args)
     if not par:
         ref = leaf_reference(d, leaf, s)
-        if ref is not None and ref not in n_sql:
+        if ref is not None and (ref not in n_sql or (leaf == 10 and n_sql.count(ref) != 2)):
             note("why", "leaf is not in the dialect's reference form: " + ref)
             return verdict(False, name, stage=1, **args)
     if leaf == 5 and d in (4, 5) and not par and ' GROUP BY "kk"' in n_sql:
@@ -157,7 +162,7 @@ def check_nested(name, d, con, depth, leaf, par, s, args):
     why = "" if ok else "nested parts built with the generic classes render differently from the dialect's own"
     if ok and not par:
         ref = leaf_reference(d, leaf, s)
-        if ref is not None and ref not in g_sql:
+        if ref is not None and (ref not in g_sql or (leaf == 10 and g_sql.count(ref) != 2)):
             ok, why = False, "leaf is not in the dialect's reference form: " + ref
     note("why", why)
     if ok and par and leaf == 4:
@@ -191,7 +196,7 @@ def check_nested(name, d, con, depth, leaf, par, s, args):
 )
 def c08_nested(d: int, con: int, depth: int, leaf: int, par: bool) -> int:
     """
-    bound: 1 <= depth <= 2 and 0 <= leaf <= 9
+    bound: 1 <= depth <= 2 and 0 <= leaf <= 10
     """
     depth, leaf, par = pin(depth - 1, 2) + 1, pin(leaf, NLEAF), bool(par)
     with _NoTracing():
